@@ -206,6 +206,9 @@ def info_of(circuit):
             lab.startswith(("Scalar", "Sqrt")) for lab in labels),
         "has_stochastic_gate": any(
             lab.startswith("ClassicalGate") for lab in labels),
+        # bits occur, but no mixed box and never a bit beside a qubit:
+        # exactly the circuits with bits for which is_mixed is False
+        "bits_but_not_mixed": expected_mixed(circuit) is None,
     }
 
 
@@ -991,14 +994,16 @@ def _override_bits_discard_type(monitor, w):
 
 def _measure_classical_only(monitor, w):
     """
-    Circuit.measure() takes the pure-quantum branch whenever is_mixed is
-    False, also for circuits made of bits only: probabilities are squared as
-    if they were amplitudes, and a bit input cannot be fed by Ket.
+    Circuit.measure() takes the amplitude (pure-quantum) branch whenever
+    is_mixed is False, also for circuits that carry bits: (a) a circuit made
+    of bits only gets its probabilities squared as if they were amplitudes;
+    (b) a bit input cannot be fed by the Ket(0, ...) that branch prepends.
     """
-    if not w.get("classical_only") or w.get("call") != "measure":
+    if w.get("call") != "measure" or w.get("bits_but_not_mixed") is not True:
         return False
     if monitor == "measure-equals-evaluation":
-        return w.get("got_is_expected_squared") is True\
+        return w.get("classical_only") is True\
+            and w.get("got_is_expected_squared") is True\
             and w.get("has_stochastic_gate") is True
     if monitor == "evaluation-returns":
         return w.get("exception") == "AxiomError"\
